@@ -1,1 +1,10 @@
 pub mod c01;
+pub mod c02;
+pub mod c04;
+pub mod c05;
+
+use crate::engine::Prop;
+
+pub fn all() -> Vec<&'static dyn Prop> {
+    vec![&c01::C01, &c02::C02, &c04::C04, &c05::C05]
+}
